@@ -123,8 +123,13 @@ func Intersect(ctx *expr.Context, input system.Collection, args ...expr.Expressi
 	for _, i := range input {
 		for _, c := range argValues {
 			if checkEquality(i, c) {
-				v, _ := system.From(c)
-				result = append(result, v)
+				// Primitives are returned as System values; complex elements
+				// have no System form and are returned as they are.
+				if v, err := system.From(c); err == nil {
+					result = append(result, v)
+				} else {
+					result = append(result, c)
+				}
 			}
 		}
 	}
@@ -203,11 +208,16 @@ func IsDistinct(ctx *expr.Context, input system.Collection, args ...expr.Express
 }
 
 func removeDuplicates(collection system.Collection) system.Collection {
-	seen := make(map[any]bool)
 	var result system.Collection
 	for _, val := range collection {
-		if _, ok := seen[val]; !ok {
-			seen[val] = true
+		duplicate := false
+		for _, kept := range result {
+			if checkEquality(val, kept) {
+				duplicate = true
+				break
+			}
+		}
+		if !duplicate {
 			result = append(result, val)
 		}
 	}
